@@ -242,6 +242,18 @@ Fixpoint c12_sub_mut (t : c12_tree) (p : list c12_str) : c12_tree * bool :=
          (C12Node (c12_vals t) (c12_assoc_set k s' (c12_subs t)), ok)
   end.
 
+(* `ParameterTree& s = pt.sub(key); parse(..., s);` -- a subtree as the RECEIVER of a parser: the subtrees on the way
+   are created as by sub(); a value/subtree clash is a RangeError before anything is parsed *)
+Fixpoint c12_in_sub {S : Type} (t : c12_tree) (p : list c12_str) (f : c12_tree -> c12_tree * S) (err : S) : c12_tree * S :=
+  match p with
+  | [] => f t
+  | k :: rest =>
+    if c12_mem k (c12_vals t) then (t, err)
+    else let s := match c12_assoc k (c12_subs t) with Some s => s | None => c12_empty end in
+         let '(s', st) := c12_in_sub s rest f err in
+         (C12Node (c12_vals t) (c12_assoc_set k s' (c12_subs t)), st)
+  end.
+
 (* report(stream, prefix): std::map order = byte-wise lexicographic order of the keys; one line
    key = "value"  per value, then per subtree  [ prefix prefix_ key ]  and its report.
    [pfx] = the prefix argument followed by the node's prefix_ (the dotted path of the node + '.') *)
@@ -674,9 +686,9 @@ Definition c12_parse_string (s : c12_str) : c12_str := c12_ltrim (c12_rtrim s).
 (* ParameterTree::split *)
 Fixpoint c12_split_aux (s : c12_str) (cur : c12_str) : list c12_str :=
   match s with
-  | [] => if c12_is_nil cur then [] else [rev cur]
+  | [] => if c12_is_nil cur then [] else [rev_append cur []]
   | c :: r => if c12_is_ws c
-              then (if c12_is_nil cur then c12_split_aux r [] else rev cur :: c12_split_aux r [])
+              then (if c12_is_nil cur then c12_split_aux r [] else rev_append cur [] :: c12_split_aux r [])
               else c12_split_aux r (c :: cur)
   end.
 Definition c12_split (s : c12_str) : list c12_str := c12_split_aux s [].
